@@ -17,8 +17,8 @@ type OpCase struct {
 
 func (oc OpCase) ID() string { return fmt.Sprintf("%s%v", oc.Op.String(), oc.In) }
 
-var powExponents = []float64{-2, -1, -0.5, 0, 0.5, 1, 2, 3}
-var scaleFactors = []float64{-1.5, 0, 1, 2}
+var powExponents = []float64{-2, -1, -0.5, 0, 0.5, 1, 1.7, 2, 3}
+var scaleFactors = []float64{-1.5, 0, 0.1, 1, 2}
 
 type opCaseOpts struct {
 	shapes       [][]int // operand shape set
